@@ -331,6 +331,8 @@ def run(run: Run) -> int:
     progs = [gen_program(run.rng) for _ in range(n)]
     for i in range(0, n, 2000):
         check_programs(run, progs[i:i + 2000], tbl, formula, me)
+    # replay consistency: the first programs once more at the end (nothing may depend on what ran in between)
+    check_programs(run, progs[:150], tbl, formula, me)
     return run.finish(RULE, assumptions=[
         "floating-point rounding of the sums is compared at 1e-9, not proved",
         "CPython object identity / tuple immutability are modelled by the heap of Model/FormulaOps.lean"])
